@@ -5,7 +5,7 @@
    NOT proved here (validated numerically by the harness oracle on the implementation): integer
    Berg-Luescher charge for whole-sphere wrappings, hedgehog = one Bloch point, Nxx+Nyy+Nzz = -delta,
    demag factors summing to -|M|. *)
-From DF Require Import Prelude FieldK NDArray Diff Integrate Region Mesh Tools C19_vec C19_density C19_cont C19_angle.
+From DF Require Import Prelude FieldK NDArray Diff Integrate Region Mesh Tools Rotate90 C19_vec C19_density C19_cont C19_angle C19_uniform C19_quarter.
 
 (* --- the algebra behind rotation invariance --- *)
 Theorem C19_triple_product_under_matrix : forall (K : FOps), FLaws K -> forall (M : mat3 K) (a b c : vec K),
@@ -87,37 +87,38 @@ Theorem C19_charge_depends_on_density_only : forall (K : FOps) fabs absolute sh 
 Proof. exact charge_ext. Qed.
 Print Assumptions C19_charge_depends_on_density_only.
 
-(* --- continuous density: the derivative (every stencil, every mask, every run) commutes with a linear
-       map of the vectors; the density picks up det M.  Open directions. --- *)
+(* --- continuous density: the derivative (every stencil, every mask, every run, open AND periodic
+       directions: wrap1/crop1 commute with cell-wise linear maps) commutes with a linear map of the
+       vectors; the density picks up det M. --- *)
 Theorem C19_derivative_commutes_with_rotation : forall (K : FOps), FLaws K ->
-  forall sh ax order h valid (M : mat3 K) (o : idx -> K) i,
+  forall sh ax order h per valid (M : mat3 K) (o : idx -> K) i,
   (ax < length i)%nat -> length i = length sh ->
-  vec_at K (diff_nd K sh 3 ax order h false true (amap K (mv K M) o) valid) i
-  = mv K M (vec_at K (diff_nd K sh 3 ax order h false true o valid) i).
+  vec_at K (diff_nd K sh 3 ax order h per true (amap K (mv K M) o) valid) i
+  = mv K M (vec_at K (diff_nd K sh 3 ax order h per true o valid) i).
 Proof. exact diff_nd_mv. Qed.
 Print Assumptions C19_derivative_commutes_with_rotation.
 
 Theorem C19_rot_invariant_continuous : forall (K : FOps), FLaws K ->
-  forall c4 sh h1 h2 (M : mat3 K) (o : idx -> K) valid i,
+  forall c4 sh h1 h2 per1 per2 (M : mat3 K) (o : idx -> K) valid i,
   length sh = 2%nat -> length i = 2%nat -> det3 K M = f1 K ->
-  tcd_cont K c4 sh h1 h2 false false (amap K (mv K M) o) valid i = tcd_cont K c4 sh h1 h2 false false o valid i.
+  tcd_cont K c4 sh h1 h2 per1 per2 (amap K (mv K M) o) valid i = tcd_cont K c4 sh h1 h2 per1 per2 o valid i.
 Proof. exact tcd_cont_rot. Qed.
 Print Assumptions C19_rot_invariant_continuous.
 
 Theorem C19_continuous_density_under_any_matrix : forall (K : FOps), FLaws K ->
-  forall c4 sh h1 h2 (M : mat3 K) (o : idx -> K) valid i,
+  forall c4 sh h1 h2 per1 per2 (M : mat3 K) (o : idx -> K) valid i,
   length sh = 2%nat -> length i = 2%nat ->
-  tcd_cont K c4 sh h1 h2 false false (amap K (mv K M) o) valid i
-  = fmul (det3 K M) (tcd_cont K c4 sh h1 h2 false false o valid i).
+  tcd_cont K c4 sh h1 h2 per1 per2 (amap K (mv K M) o) valid i
+  = fmul (det3 K M) (tcd_cont K c4 sh h1 h2 per1 per2 o valid i).
 Proof. exact tcd_cont_mv. Qed.
 Print Assumptions C19_continuous_density_under_any_matrix.
 
 (* reversal = the matrix -I (mv (-I) v = -v, det = -1) *)
 Theorem C19_reverse_sign_continuous : forall (K : FOps), FLaws K ->
-  forall c4 sh h1 h2 (o : idx -> K) valid i,
+  forall c4 sh h1 h2 per1 per2 (o : idx -> K) valid i,
   length sh = 2%nat -> length i = 2%nat ->
-  tcd_cont K c4 sh h1 h2 false false (amap K (mv K (mneg K)) o) valid i
-  = fopp (tcd_cont K c4 sh h1 h2 false false o valid i).
+  tcd_cont K c4 sh h1 h2 per1 per2 (amap K (mv K (mneg K)) o) valid i
+  = fopp (tcd_cont K c4 sh h1 h2 per1 per2 o valid i).
 Proof. exact tcd_cont_neg. Qed.
 Print Assumptions C19_reverse_sign_continuous.
 
@@ -135,6 +136,69 @@ Theorem C19_emergent_field_under_matrix : forall (K : FOps), FLaws K ->
   emergent_pt K mo md0 md1 md2 i = vscale K (det3 K M) (emergent_pt K m d0 d1 d2 i).
 Proof. intros K HK M m d0 d1 d2 md0 md1 md2 mo i. exact (emergent_pt_mv K HK M m d0 d1 d2 md0 md1 md2 mo i). Qed.
 Print Assumptions C19_emergent_field_under_matrix.
+
+
+(* --- uniform fields: every derivative vanishes, for ALL masks and runs, open and periodic, order 1 and
+       order 2 (order 2 is proved against the coefficient tuples generated from operators.py into
+       Constants_gen: a changed coefficient whose row no longer sums to zero breaks this proof) --- *)
+Theorem C19_uniform_line_derivative_zero : forall (K : FOps), FLaws K ->
+  forall order (v h : K) per restrict n valid,
+  order = 1%nat \/ order = 2%nat -> length valid = n ->
+  diff_line K order h per restrict (repeat v n) valid = repeat (f0 K) n.
+Proof. exact diff_line_const. Qed.
+Print Assumptions C19_uniform_line_derivative_zero.
+
+Theorem C19_uniform_zero_continuous : forall (K : FOps), FLaws K ->
+  forall c4 sh h1 h2 per1 per2 (o : idx -> K) valid (v : vec K) i,
+  (forall j cc, o (j ++ [cc]) = vcomp K cc v) -> length sh = 2%nat -> length i = 2%nat ->
+  tcd_cont K c4 sh h1 h2 per1 per2 o valid i = f0 K.
+Proof. exact tcd_cont_uniform. Qed.
+Print Assumptions C19_uniform_zero_continuous.
+
+Theorem C19_uniform_zero_emergent : forall (K : FOps), FLaws K ->
+  forall sh h per (m : idx -> K) valid (v : vec K) i,
+  (forall j cc, m (j ++ [cc]) = vcomp K cc v) -> length sh = 3%nat ->
+  emergent K sh h per m valid i = f0 K.
+Proof. exact emergent_uniform. Qed.
+Print Assumptions C19_uniform_zero_emergent.
+
+(* --- quarter turns of the sample in the x-y plane (Field.rotate90: numpy.rot90 on data and validity,
+       exact rotation of the x,y components; model Rotate90.v).  PROVED: for k = 1, 2, 3, every n0 x n1
+       lattice, every validity mask, every cell size and ANY solid-angle function, the Berg-Luescher
+       density of the rotated field is the rot90 image of the density of the original field (the index
+       map permutes the four neighbours / four triangles of a cell cyclically; edges are exchanged for
+       odd k).  NOT proved: the same for the continuous density, and the step from the covariant density
+       to the equal charge (a sum over the permuted cells) - both validated by the harness clause
+       `quarter-turn-changes-*`. --- *)
+Theorem C19_quarter_turn_lattice_k1 : forall (K : FOps), FLaws K ->
+  forall Omega n0 n1 (o : idx -> K) valid h1 h2 p q, (p < n1)%nat ->
+  tcd_bl K Omega (rot90_shape [n0; n1] 0 1 1) h2 h1
+         (rot_comp K (fst (kturn K 1)) (snd (kturn K 1)) 0 1 (rot90 [n0; n1; 3%nat] 0 1 1 o))
+         (rot90 [n0; n1] 0 1 1 valid) [p; q]
+  = rot90 [n0; n1] 0 1 1 (tcd_bl K Omega [n0; n1] h1 h2 o valid) [p; q].
+Proof. exact tcd_bl_quarter1_covariant. Qed.
+Print Assumptions C19_quarter_turn_lattice_k1.
+
+Theorem C19_quarter_turn_lattice_k2 : forall (K : FOps), FLaws K ->
+  forall Omega n0 n1 (o : idx -> K) valid h1 h2 p q, (p < n0)%nat -> (q < n1)%nat ->
+  tcd_bl K Omega (rot90_shape [n0; n1] 0 1 2) h1 h2
+         (rot_comp K (fst (kturn K 2)) (snd (kturn K 2)) 0 1 (rot90 [n0; n1; 3%nat] 0 1 2 o))
+         (rot90 [n0; n1] 0 1 2 valid) [p; q]
+  = rot90 [n0; n1] 0 1 2 (tcd_bl K Omega [n0; n1] h1 h2 o valid) [p; q].
+Proof. exact tcd_bl_quarter2_covariant. Qed.
+Print Assumptions C19_quarter_turn_lattice_k2.
+
+Theorem C19_quarter_turn_lattice_k3 : forall (K : FOps), FLaws K ->
+  forall Omega n0 n1 (o : idx -> K) valid h1 h2 p q, (q < n0)%nat ->
+  tcd_bl K Omega (rot90_shape [n0; n1] 0 1 3) h2 h1
+         (rot_comp K (fst (kturn K 3)) (snd (kturn K 3)) 0 1 (rot90 [n0; n1; 3%nat] 0 1 3 o))
+         (rot90 [n0; n1] 0 1 3 valid) [p; q]
+  = rot90 [n0; n1] 0 1 3 (tcd_bl K Omega [n0; n1] h1 h2 o valid) [p; q].
+Proof. exact tcd_bl_quarter3_covariant. Qed.
+Print Assumptions C19_quarter_turn_lattice_k3.
+
+Example C19_quarter_turn_nonvacuous : quarter_example = true.
+Proof. exact quarter_example_ok. Qed.
 
 (* --- neighbouring-cell angles --- *)
 Theorem C19_angle_value : forall (K : FOps) acosf clipf degf ax (o : idx -> K) i,
